@@ -267,7 +267,7 @@ impl Engine for C06 {
                 "the value stack is bounded (max_stack_size), therefore a stack that does not return to its level after an evaluation is reported: repeated often enough it turns a later evaluation into StackOverflow on this VM only",
             ],
             shrink: vec!["/steps"],
-            quick: (5000, 150),
+            quick: (6000, 150),
             thorough: (150000, 1100),
         }
     }
